@@ -3,6 +3,7 @@ package rules
 import (
 	"fmt"
 	"go/ast"
+	"go/constant"
 	"go/token"
 	"go/types"
 	"golang.org/x/tools/go/types/typeutil"
@@ -566,6 +567,53 @@ func (c *Ctx) c11ScanSkip() {
 			}
 		}
 	}
+	// the counter only grows: "expirationsSet == 0" must stay a proof that no expiry was ever handed out. Every other use of the field
+	// is an atomic load; nothing subtracts what the janitor collected (entries expired by ExpireAll or restored from a dump were never
+	// counted) and nothing stores to it
+	info := c.Pkg.TypesInfo
+	c.eachFuncDecl(func(fd *ast.FuncDecl, fn *types.Func) {
+		if c.isNewAPI(fn) {
+			return
+		}
+		fname2 := strings.TrimPrefix(pw.FuncName(fn), "cache.")
+		var stack []ast.Node
+		ast.Inspect(fd.Body, func(x ast.Node) bool {
+			if x == nil {
+				stack = stack[:len(stack)-1]
+				return true
+			}
+			stack = append(stack, x)
+			sel, ok := x.(*ast.SelectorExpr)
+			if !ok || sel.Sel.Name != actualField("Trait", "expirationsSet") {
+				return true
+			}
+			if sl := info.Selections[sel]; sl == nil || sl.Kind() != types.FieldVal || !strings.HasPrefix(namedTypeName(sl.Recv()), "Trait") {
+				return true
+			}
+			// &c.expirationsSet as the first argument of atomic.LoadInt64 / atomic.AddInt64(…, positive constant)
+			okUse := false
+			if len(stack) >= 3 {
+				if u, isU := stack[len(stack)-2].(*ast.UnaryExpr); isU && u.Op == token.AND {
+					if call, isC := stack[len(stack)-3].(*ast.CallExpr); isC && len(call.Args) >= 1 && call.Args[0] == ast.Expr(u) {
+						if cf, _ := typeutil.Callee(info, call).(*types.Func); cf != nil && cf.Pkg() != nil && cf.Pkg().Path() == "sync/atomic" {
+							switch cf.Name() {
+							case "LoadInt64":
+								okUse = true
+							case "AddInt64":
+								if tv, has := info.Types[call.Args[1]]; has && tv.Value != nil && constant.Sign(tv.Value) > 0 {
+									okUse = true
+								}
+							}
+						}
+					}
+				}
+			}
+			if !okUse {
+				r.Bad("R11.3", fname2, "expirations-counter-not-monotone", c.Pos(sel.Pos()), "expirationsSet is used other than by an atomic load or an atomic add of a positive constant: once it can go down (or be reset), 0 no longer proves that no expiry was handed out and an UnlimitedTTL cache stops scanning", nil)
+			}
+			return true
+		})
+	})
 	if n == 0 {
 		r.Unknown("R11.3", "Trait.TTL", "no path hands out a TTL under UnlimitedTTL")
 	} else if !hasViolation(r.Obls, "R11.3", "Trait.TTL") {
